@@ -1,4 +1,6 @@
 import ClusterVerif.Lemmas.C16
+import ClusterVerif.Model.C16Source
+import ClusterVerif.Gen.C16
 
 /-!
 # C16 — the IPFS connector reports success only when the daemon reached the asked state
@@ -441,5 +443,22 @@ def exUnpinAbsent : Input :=
 
 example : wf exUnpinAbsent = true ∧ (run exUnpinAbsent).trace = [.rm 0] ∧ (run exUnpinAbsent).res = .ok := by
   decide
+
+/-! ### The anchored functions still read as the model was transcribed (regenerated from /repo on every run) -/
+
+theorem gen_source_pinArgs : Gen.pinArgs = Expected.pinArgs := rfl
+theorem gen_source_pin : Gen.pin = Expected.pin := rfl
+theorem gen_source_pinProgress : Gen.pinProgress = Expected.pinProgress := rfl
+theorem gen_source_pinUpdate : Gen.pinUpdate = Expected.pinUpdate := rfl
+theorem gen_source_unpin : Gen.unpin = Expected.unpin := rfl
+theorem gen_source_pinLs : Gen.pinLs = Expected.pinLs := rfl
+theorem gen_source_pinLsCid : Gen.pinLsCid = Expected.pinLsCid := rfl
+theorem gen_source_doPostCtx : Gen.doPostCtx = Expected.doPostCtx := rfl
+theorem gen_source_postCtx : Gen.postCtx = Expected.postCtx := rfl
+theorem gen_source_checkResponse : Gen.checkResponse = Expected.checkResponse := rfl
+theorem gen_source_statusFromString : Gen.statusFromString = Expected.statusFromString := rfl
+theorem gen_source_isPinned : Gen.isPinned = Expected.isPinned := rfl
+theorem gen_source_toPinMode : Gen.toPinMode = Expected.toPinMode := rfl
+
 
 end CV.C16
